@@ -35,6 +35,18 @@ def make_cmds(rnd, kind, S, params, tier):
         cmds += ["q r extract %d" % i for i in range(1, n + 1)]     # ID -> string table for the permuted kinds
     # 1. every query on the pristine object (each in its own forked copy: the object in the parent is untouched)
     cmds += ["q r %s" % b for b in base]
+    # 1b. the caller's buffer holds MORE than the pattern (pattern ++ tail ++ NUL, strLen = |pattern|: the "type-ahead" use):
+    #     only the buffer's intactness is observed for these calls
+    tails = []
+    for q in rnd.sample(qs, min(len(qs), 8)) + D.gen_prefixes(rnd, S, 4):
+        if len(q) >= 2:
+            k = rnd.randrange(1, len(q))
+            tails.append((q[:k], q[k:]))
+        tails.append((q, bytes([rnd.choice([0x21, 0x7E, 0xFE])])))
+    for pat, tail in tails[:16]:
+        ops = ["locate"] + (["locatePrefix", "extractPrefix"] if kind in D.PREFIX_KINDS else []) + \
+              (["locateSubstr", "extractSubstr"] if kind == "FMINDEX" and params[2] != "0" else [])
+        cmds += ["qt r %s %s %s" % (o, D.hx(pat), D.hx(tail)) for o in ops]
     # 2. a history in ONE process: shuffled, with repeats, failed lookups in between, backwards id walks
     hist = list(base) + rnd.sample(base, min(len(base), 25))
     rnd.shuffle(hist)
@@ -71,6 +83,10 @@ def extra_eval(c, io, mo):
             fails.append(D.Fail(pq[1], "history dependent answer: '%s' first, '%s' later" % (first[key][0][:100], rest[:100]), l,
                                 D.classes_for(c.meta, pq[0], pq[1], ""), pq[0]))
     for k, l in enumerate(io["lines"]):
+        if l.startswith("qt ") and "PATTERN-MODIFIED" in l:
+            t = l.split()
+            fails.append(D.Fail(t[2], "caller's buffer (pattern followed by further bytes) modified when the call returned", c.cmds[k], ["pattern_modified"], "r"))
+    for k, l in enumerate(io["lines"]):
         if l.startswith("ilv ") and "PATTERN-MODIFIED" in l:
             fails.append(D.Fail("ilv", "caller's pattern buffer modified by an iterator-returning query", c.cmds[k], ["pattern_modified"], "r"))
     return fails
@@ -82,7 +98,8 @@ CFG = DC.Config("C14", D.ALL_KINDS, make_cmds, components=[gen_hashdict], nsets=
                      "calls in ONE process - shuffled with repeats and failed lookups, descending / ascending / zig-zag id walks, groups of "
                      "up to three iterators (prefix, substring, table) open at once and drained round-robin - then every query again; all "
                      "answers must equal the specification and each other; every pattern lives in an exact-size heap buffer that is "
-                     "compared before/after the call (incl. its NUL). Non-trivial = a call; distinct by (kind, params, S, command).")
+                     "compared before/after the call (incl. its NUL); a second family of calls passes pattern ++ further bytes ++ NUL with strLen = "
+                     "|pattern| and observes only that the buffer is intact on return. Non-trivial = a call; distinct by (kind, params, S, command).")
 
 
 def check(run, tier, seed, replay):
